@@ -1,22 +1,38 @@
 /* c01_drv.c - conformance driver for C01 (PCA is an exact orthogonal decomposition accounting for all variance).
  *
  * usage: c01_drv <out.ndjson> sweep <seed> <count> <nproc> [shapeclass]
- *        c01_drv <out.ndjson> one   <mseed> <n> <c> <scaling> <npc> <nproc>      (npc 0 = rank)
+ *        c01_drv <out.ndjson> one   <mseed> <n> <c> <scaling> <npc> <nproc>                 (npc 0 = rank; generator class "rnd")
+ *        c01_drv <out.ndjson> case  <gen> <gp> <mseed> <n> <c> <scaling> <npc> <nproc>      (npc 0 = rank, -1 = a fraction drawn from mseed)
+ *        c01_drv <out.ndjson> cases <file>                                                   (one "case"/"hist" argument list per line)
+ *        c01_drv <out.ndjson> hist  <hseed> <nproc>                                          (four fits in ONE process + a refit into a used model)
  *
- * Every model is determined by (mseed, n, c, scaling, npc, nproc); the sweep draws those from <seed>.
- * The parent generates the matrix, preprocesses it with MatrixPreprocess, takes the singular values of the
- * PREPROCESSED matrix from LAPACK dgesdd (declared here, independent of the library's wrappers) to decide
- * the admissible number of components, emits Fit, and runs the fit + projection of residuals in a forked
- * child under the H4 iteration budget and a wall-clock watchdog.
+ * Every model is determined by (gen, gp, mseed, n, c, scaling, npc, nproc); the sweep draws those from <seed>.
+ * Generator classes (INPUT-CLASSES.md): rnd = random in-quantifier matrix (spreads 0.02..1e6, locations up to +-1e6, constant and
+ * duplicated columns); loc = K3 (every column offset by 10^gp x its spread); mag = K4 (all spreads at the floor 0.02 / at 1e6 / per-column
+ * units 2^-5..2^19, with ill-conditioned minor components); k5 = K5 (tied decimal values 0.1 k, k/3, 1e-3 k, constant columns at 0.1, 1/3,
+ * 0.7, ..); design = K8 deterministic exactly-orthogonal designs (2^k factorials, contrasts; see design_shape); dup = K8 duplicate rows /
+ * columns / ties over a small integer alphabet; sent = a rank-one matrix whose first score equals the missing-value code.
+ * The parent generates the matrix, preprocesses it with MatrixPreprocess, takes the singular values of the PREPROCESSED matrix from
+ * LAPACK dgesdd (declared here, independent of the library's wrappers) to decide the admissible number of components, emits Fit, and
+ * runs the fit + the residuals in a forked child under the H4 iteration budget and a wall-clock watchdog.
  *
  * Events (integers only; fractions of ss0 in 1e-9 units, residuals in 1e-12 units, saturating at 2e9):
  *   Reset{}                                                           separates models
- *   Fit{seed,n,c,scaling,npc,rank,tail,nproc,shape,ss0e,srel}         rank = admissible rank of the preprocessed matrix (singular values >= 1e-6 sigma_1),
- *                                                                     tail = number of further singular values that are not numerically zero
- *   Extract{k,eval,resid,ortho,proj,recon,rorth,dmodx,it}             after component k (it = NIPALS iterations, informative)
+ *   Fit{seed,n,c,scaling,npc,rank,tail,nproc,shape,ss0e,srel,         rank = admissible rank of the preprocessed matrix (singular values >= 1e-6 sigma_1),
+ *       gen,gp,rmode,h,hs,loc,sdlo,sdhi,nconst}                        tail = number of further singular values that are not numerically zero; rmode = how the outputs
+ *                                                                     of the predictors are handed over (0 empty, 1 other shape + non-zero, 2 EQUAL shape + non-zero);
+ *                                                                     h = position in an in-process history (0 = own process); loc = decade of max |mean|/sdev
+ *   Extract{k,eval,resid,ortho,proj,recon,rorth,dmodx,it,             after component k (it = NIPALS iterations, informative).  sc12/sc9 = cos^2 (1e-12 / 1e-9 units) between
+ *           sc12,sc9,r9,tm,fs}                                        the column of the deflated matrix with the largest sum of squares (the documented NIPALS start) and the
+ *                                                                     dominant eigenspace of that deflated matrix (harness's own dgesdd); r9 = eval_k / dominant eigenvalue;
+ *                                                                     tm = number of stored scores of the component within 0.1 of the missing-value code 99999999
  *   Finish{varexp[]}                                                  explained variances / 100
- *   Project{err,gr}                                                   PCAScorePredictor(training matrix) vs training scores; gr: GetResidualMatrix vs E0 - T P' (|E0| units)
- *   Back{err,repr}                                                    PCAIndVarPredictor vs X - scale*residual, in units of |E0|; repr = one ulp of X in the same units
+ *   Project{err,part,gr}                                              PCAScorePredictor(training matrix) vs training scores for a = npc and then a < npc INTO THE SAME output;
+ *                                                                     gr: GetResidualMatrix vs E0 - T_a P_a' for a = npc and a = 1 into the same output (|E0| units)
+ *   Back{err,repr,scan}                                               PCAIndVarPredictor vs X - scale*residual for a = 1.. (scan) and finally a = npc (err) INTO THE SAME output,
+ *                                                                     in units of |E0|; repr = one ulp of X in the same units
+ *   Refit{fs,terr,perr,vlen,npc,died}                                 PCA() into a model object that already holds another fit vs the fit into a fresh model (outside the statement)
+ *   RSq{fs,err,repr,len,npc,scaling,died}                             PCARSquared() vs 1 - |X - back-transformation(a)|^2 / |X - means|^2, a = 1..npc (outside the statement; own child)
  *   Abort{rc,why}                                                     child died / iteration budget / watchdog
  *   Dropped{why}                                                      generated input outside the quantifier (not judged)
  */
@@ -33,12 +49,22 @@ typedef long double ld;
 #define F9_LO 0.5e-3        /* |scale| in [F9_LO, F9_HI): fit keeps the column (guard 1e-3) but apply zeroes it (guard 1e-2): */
 #define F9_HI 1.2e-2        /*   C10's finding F9, not C01's business -> such inputs are regenerated or dropped */
 
-typedef struct { long mseed; int n, c, scaling, npc, nproc; matrix *x, *E0; int rank, full; } job;
+enum { G_RND = 0, G_LOC = 1, G_MAG = 2, G_K5 = 3, G_DESIGN = 4, G_DUP = 5, G_SENT = 6, G_NGEN = 7 };
+static const char *gen_name[G_NGEN] = {"rnd", "loc", "mag", "k5", "design", "dup", "sent"};
+
+typedef struct {
+  long mseed; int n, c, scaling, npc_req, nproc, gen, gp; double npc_frac;
+  /* filled by prepare() */
+  matrix *x, *E0; int rank, grey, npc, full, locd, sdlo, sdhi, nconst; double srel; ld ss0;
+  int hpos, rmode; long hseed;
+} job;
+
+typedef struct { matrix *ps, *bx, *rm; } outputs;       /* the predictors' output objects (kept across the fits of a history) */
 
 /* ---------------------------------------------------------------- data generation */
 static double logunif(vrng *r, double lo, double hi){ return pow(10.0, log10(lo) + vr_unif(r) * (log10(hi) - log10(lo))); }
 
-static void fill_column(vrng *r, matrix *x, int j, double loc, double spread, int kind, double *lat, int nlat)
+static void fill_column_n(vrng *r, matrix *x, int j, double loc, double spread, int kind, double *lat, int nlat, double noise)
 {
   int n = (int)x->row;
   double *z = malloc(sizeof(double) * n);
@@ -46,7 +72,7 @@ static void fill_column(vrng *r, matrix *x, int j, double loc, double spread, in
   for(int i = 0; i < n; i++){
     double v = (kind == 0) ? (vr_unif(r) - 0.5) : vr_norm(r);
     if(nlat > 0){ /* latent structure: a few common factors + noise */
-      double w = 0.25 * v;
+      double w = noise * v;
       for(int a = 0; a < nlat; a++) w += lat[a * n + i] * lat[nlat * n + a * 64 + (j % 64)];
       v = w;
     }
@@ -65,8 +91,31 @@ static void fill_column(vrng *r, matrix *x, int j, double loc, double spread, in
   for(int i = 0; i < n; i++) x->data[i][j] = loc + spread * (z[i] / sd);   /* sample standard deviation = spread */
   free(z);
 }
+static void fill_column(vrng *r, matrix *x, int j, double loc, double spread, int kind, double *lat, int nlat)
+{ fill_column_n(r, x, j, loc, spread, kind, lat, nlat, 0.25); }
 
-/* returns 0 ok, 1 = dropped */
+static double *new_latent(vrng *r, int n, int nlat)
+{
+  double *lat = malloc(sizeof(double) * (nlat * n + nlat * 64));
+  for(int a = 0; a < nlat; a++){ for(int i = 0; i < n; i++) lat[a * n + i] = vr_norm(r) * (3.0 / (1 + a)); for(int q = 0; q < 64; q++) lat[nlat * n + a * 64 + q] = vr_norm(r); }
+  return lat;
+}
+
+/* the scale MatrixPreprocess will divide column j by (mean, sample sdev of the column as generated) */
+static void col_stats(matrix *x, int j, double *mean, double *sdev, double *scale, int scaling)
+{
+  int n = (int)x->row;
+  ld m = 0, q = 0, mn = x->data[0][j], mx = x->data[0][j];
+  for(int i = 0; i < n; i++){ m += x->data[i][j]; q += (ld)x->data[i][j] * x->data[i][j]; if(x->data[i][j] < mn) mn = x->data[i][j]; if(x->data[i][j] > mx) mx = x->data[i][j]; }
+  m /= n; ld v = 0; for(int i = 0; i < n; i++) v += (x->data[i][j] - m) * (x->data[i][j] - m);
+  double sd = sqrt((double)(v / (n > 1 ? n - 1 : 1)));
+  double sc = scaling == 1 ? sd : scaling == 2 ? sqrt((double)(q / n)) : scaling == 3 ? sqrt(sd) : scaling == 4 ? (double)(mx - mn) : scaling == 5 ? fabs((double)m) : 1.0;
+  if(n == 1) sc = 1.0;
+  *mean = (double)m; *sdev = sd; *scale = sc;
+}
+static int col_is_const(matrix *x, int j){ for(size_t i = 1; i < x->row; i++) if(x->data[i][j] != x->data[0][j]) return 0; return 1; }
+
+/* gen "rnd": returns 0 ok, 1 = dropped (unchanged since round 1: recorded seeds keep their meaning) */
 static int gen_matrix(long mseed, int n, int c, int scaling, matrix *x, char *why)
 {
   vrng r; r.s = (uint64_t)mseed * 0x9E3779B97F4A7C15ULL + 12345u;
@@ -77,10 +126,7 @@ static int gen_matrix(long mseed, int n, int c, int scaling, matrix *x, char *wh
   int kind = (int)vr_int(&r, 0, 1);
   int nlat = (vr_int(&r, 0, 1) == 0) ? 0 : (int)vr_int(&r, 1, 3);
   double *lat = NULL;
-  if(nlat){
-    lat = malloc(sizeof(double) * (nlat * n + nlat * 64));
-    for(int a = 0; a < nlat; a++){ for(int i = 0; i < n; i++) lat[a * n + i] = vr_norm(&r) * (3.0 / (1 + a)); for(int q = 0; q < 64; q++) lat[nlat * n + a * 64 + q] = vr_norm(&r); }
-  }
+  if(nlat) lat = new_latent(&r, n, nlat);
   int nconst = 0;
   for(int j = 0; j < c; j++){
     int is_const = (c > 1 && vr_int(&r, 0, 11) == 0 && nconst < c - 1);
@@ -101,12 +147,7 @@ static int gen_matrix(long mseed, int n, int c, int scaling, matrix *x, char *wh
       if(j > 0 && vr_int(&r, 0, 24) == 0){ int src = (int)vr_int(&r, 0, j - 1); for(int i = 0; i < n; i++) x->data[i][j] = 2.0 * x->data[i][src]; }
       /* stay clear of the fit/apply zero-scale discrepancy F9 (owned by C10) */
       if(scaling >= 1){
-        ld m = 0, q = 0, mn = x->data[0][j], mx = x->data[0][j];
-        for(int i = 0; i < n; i++){ m += x->data[i][j]; q += (ld)x->data[i][j] * x->data[i][j]; if(x->data[i][j] < mn) mn = x->data[i][j]; if(x->data[i][j] > mx) mx = x->data[i][j]; }
-        m /= n; ld v = 0; for(int i = 0; i < n; i++) v += (x->data[i][j] - m) * (x->data[i][j] - m);
-        double sd = sqrt((double)(v / (n > 1 ? n - 1 : 1)));
-        double sc = scaling == 1 ? sd : scaling == 2 ? sqrt((double)(q / n)) : scaling == 3 ? sqrt(sd) : scaling == 4 ? (double)(mx - mn) : fabs((double)m);
-        if(n == 1) sc = 1.0;
+        double m, sd, sc; col_stats(x, j, &m, &sd, &sc, scaling);
         if(sc < F9_HI){   /* incl. level scaling with mean exactly 0: the guard drops a non-constant column, nothing can reproduce it */
           if(++tries < 30) goto again;
           free(lat); sprintf(why, "scale-in-guard-zone"); return 1;
@@ -118,23 +159,288 @@ static int gen_matrix(long mseed, int n, int c, int scaling, matrix *x, char *wh
   return 0;
 }
 
-/* singular values of an n x c libscientific matrix through dgesdd (jobz = N) */
+/* gen "loc" (K3): every informative column sits at +-10^gp x (1..2) x its spread; spreads 0.02..5 */
+static int gen_loc(job *jb, char *why)
+{
+  vrng r; r.s = (uint64_t)jb->mseed * 0x9E3779B97F4A7C15ULL + 777u;
+  for(int i = 0; i < 4; i++) vr_next(&r);
+  int n = jb->n, c = jb->c;
+  double ratio = pow(10.0, (double)jb->gp);
+  int kind = (int)vr_int(&r, 0, 1);
+  int nlat = (vr_int(&r, 0, 1) == 0) ? 0 : (int)vr_int(&r, 1, 3);
+  double *lat = nlat ? new_latent(&r, n, nlat) : NULL;
+  for(int j = 0; j < c; j++){
+    int is_const = (c > 1 && j > 0 && vr_int(&r, 0, 15) == 0);
+    for(int tries = 0; ; tries++){
+      double spread = logunif(&r, 0.02, 5.0);
+      double loc = (vr_int(&r, 0, 1) ? 1.0 : -1.0) * ratio * spread * (1.0 + vr_unif(&r));
+      if(is_const){ double v = floor(loc); for(int i = 0; i < n; i++) jb->x->data[i][j] = v; break; }
+      fill_column(&r, jb->x, j, loc, spread, kind, lat, nlat);
+      double m, sd, sc; col_stats(jb->x, j, &m, &sd, &sc, jb->scaling);
+      if(jb->scaling < 1 || sc >= F9_HI) break;
+      if(tries > 30){ free(lat); sprintf(why, "scale-in-guard-zone"); return 1; }
+    }
+  }
+  free(lat);
+  return 0;
+}
+
+/* gen "mag" (K4): gp 0: every spread at the floor of the quantifier (0.02); gp 1: every spread 1e6; gp 2: per-column unit systems 2^-5..2^19.
+ * Always with latent structure and SMALL noise (2e-4 / 1e-3 / 0.25 of a factor), so that the admissible minor components have tiny
+ * eigenvalues: an absolute guard on t't or p'p shows here and nowhere else */
+static int gen_mag(job *jb, char *why)
+{
+  vrng r; r.s = (uint64_t)jb->mseed * 0x9E3779B97F4A7C15ULL + 4242u;
+  for(int i = 0; i < 4; i++) vr_next(&r);
+  int n = jb->n, c = jb->c;
+  int kind = (int)vr_int(&r, 0, 1);
+  int nlat = (int)vr_int(&r, 1, 3);
+  int ns = (int)vr_int(&r, 0, 2);
+  double noise = ns == 0 ? 2e-4 : ns == 1 ? 1e-3 : 0.25;
+  double *lat = new_latent(&r, n, nlat);
+  for(int j = 0; j < c; j++){
+    for(int tries = 0; ; tries++){
+      double spread = jb->gp == 0 ? 0.02000001 : jb->gp == 1 ? 1e6 : ldexp(1.0, (int)vr_int(&r, -5, 19));
+      double loc = (jb->scaling == 5) ? spread * (1.0 + vr_unif(&r)) * (vr_int(&r, 0, 1) ? 1 : -1) : (vr_int(&r, 0, 2) == 0 ? spread * vr_norm(&r) : 0.0);
+      fill_column_n(&r, jb->x, j, loc, spread, kind, lat, nlat, noise);
+      double m, sd, sc; col_stats(jb->x, j, &m, &sd, &sc, jb->scaling);
+      if(jb->scaling < 1 || sc >= F9_HI) break;
+      if(tries > 30){ free(lat); sprintf(why, "scale-in-guard-zone"); return 1; }
+    }
+  }
+  free(lat);
+  return 0;
+}
+
+/* gen "k5" (K5): values that are not representable in binary - tied decimals 0.1 k, thirds k/3, 1e-3 k, shifted by 0.1 / 1/3 / 0.7 / 100.1;
+ * constant columns AT such values (sum/n is one ulp off the value for some n: the centred column is then +-1 ulp instead of 0) */
+static int gen_k5(job *jb, char *why)
+{
+  vrng r; r.s = (uint64_t)jb->mseed * 0x9E3779B97F4A7C15ULL + 555u;
+  for(int i = 0; i < 4; i++) vr_next(&r);
+  static const double offs[6] = {0.0, 0.1, 1.0 / 3.0, 0.7, 100.1, -0.3};
+  int n = jb->n, c = jb->c, nconst = 0;
+  for(int j = 0; j < c; j++){
+    int is_const = (c > 1 && nconst < c - 1 && ((jb->gp & 1) ? (j == 1 || vr_int(&r, 0, 5) == 0) : 0));
+    if(is_const){
+      int w = (int)vr_int(&r, 0, 5);
+      double v = w == 0 ? 0.1 : w == 1 ? 1.0 / 3.0 : w == 2 ? 0.7 : w == 3 ? 1e-3 * (double)vr_int(&r, 1, 999) : w == 4 ? 1000.1 : -0.3;
+      for(int i = 0; i < n; i++) jb->x->data[i][j] = v;
+      nconst++; continue;
+    }
+    for(int tries = 0; ; tries++){
+      int w = (int)vr_int(&r, 0, 2);
+      double o = offs[vr_int(&r, 0, 5)];
+      if(jb->scaling == 5 && o == 0.0) o = 0.7;
+      for(int i = 0; i < n; i++){
+        double v = w == 0 ? 0.1 * (double)vr_int(&r, -9, 9) : w == 1 ? (double)vr_int(&r, -9, 9) / 3.0 : 1e-3 * (double)vr_int(&r, -2000, 2000);
+        jb->x->data[i][j] = v + o;
+      }
+      double m, sd, sc; col_stats(jb->x, j, &m, &sd, &sc, jb->scaling);
+      if(!col_is_const(jb->x, j) && sd >= 0.02 && (jb->scaling < 1 || sc >= F9_HI)) break;      /* spread >= 0.02 (the quantifier) */
+      if(tries > 60){ sprintf(why, "k5-no-admissible-column"); return 1; }
+    }
+  }
+  return 0;
+}
+
+/* gen "dup" (K8): small integer alphabet (exact ties), duplicated objects, duplicated / doubled / negated variables */
+static int gen_dup(job *jb, char *why)
+{
+  vrng r; r.s = (uint64_t)jb->mseed * 0x9E3779B97F4A7C15ULL + 888u;
+  for(int i = 0; i < 4; i++) vr_next(&r);
+  int n = jb->n, c = jb->c;
+  (void)why;
+  for(int j = 0; j < c; j++){
+    for(int tries = 0; ; tries++){
+      double unit = (double)vr_int(&r, 1, 12), off = (jb->scaling == 5) ? unit * (double)vr_int(&r, 5, 40) : (double)vr_int(&r, -50, 50);
+      for(int i = 0; i < n; i++) jb->x->data[i][j] = off + unit * (double)vr_int(&r, -3, 3);
+      if((jb->gp & 2) && j > 0 && vr_int(&r, 0, 2) == 0){       /* duplicate variable: copy, double or negate an earlier one */
+        int src = (int)vr_int(&r, 0, j - 1), how = (int)vr_int(&r, 0, 2);
+        for(int i = 0; i < n; i++) jb->x->data[i][j] = how == 0 ? jb->x->data[i][src] : how == 1 ? 2.0 * jb->x->data[i][src] : -jb->x->data[i][src];
+        if(jb->scaling == 5 && how == 2) continue;
+      }
+      double m, sd, sc; col_stats(jb->x, j, &m, &sd, &sc, jb->scaling);
+      if(col_is_const(jb->x, j) || jb->scaling < 1 || sc >= F9_HI) break;
+      if(tries > 60){ sprintf(why, "scale-in-guard-zone"); return 1; }
+    }
+  }
+  if(jb->gp & 1) for(int i = 1; i < n; i++) if(vr_int(&r, 0, 2) == 0){ int src = (int)vr_int(&r, 0, i - 1); for(int j = 0; j < c; j++) jb->x->data[i][j] = jb->x->data[src][j]; }
+  /* copying objects may have changed a column's scale: re-check the guard zone */
+  for(int j = 0; j < c; j++){ double m, sd, sc; col_stats(jb->x, j, &m, &sd, &sc, jb->scaling); if(!col_is_const(jb->x, j) && jb->scaling >= 1 && sc < F9_HI){ sprintf(why, "scale-in-guard-zone"); return 1; } }
+  return 0;
+}
+
+/* gen "design" (K8): exactly orthogonal designs.  Entries are integers or dyadic fractions, so centring is exact and the columns stay EXACTLY
+ * orthogonal in double precision: a component coincides with a column, deflation zeroes that column exactly.
+ *   0  8 x 3  the coordinator's witness: x1 = u2, x2 = x3 = 0.75 u1 (the column with the largest sum of squares is an eigenvector, not the dominant one)
+ *   1  8 x 4  2^3 plan variant: A, 0.75 B, 0.75 B, 0.5 C
+ *   2  8 x 3  2^3 factorial in physical units (60/80, 2/4, 1/2 and variants)
+ *   3 12 x 4  2 x 2 x 3 factorial, third factor as linear + quadratic contrast
+ *   4 16 x 4  2^4 factorial in physical units
+ *   5  8 x 7  saturated 2^3 design: main effects and all interactions, distinct integer units (n = p + 1)
+ *   6  8 x 4  2^(4-1) fractional factorial, D = ABC
+ *   7 16 x 5  A, B, 0.75 C, 0.75 C, 0.5 D
+ *   8 16 x 6  A, 0.625 B three times (3 x 6.25 > 16), 0.5 C, 0.25 D
+ * mseed = 0 gives the literal design; other seeds multiply by integer units and add integer offsets (orthogonality after centring is kept). */
+#define N_DESIGN 9
+static int design_shape(int id, int *n, int *c)
+{
+  static const int nn[N_DESIGN] = {8, 8, 8, 12, 16, 8, 8, 16, 16}, cc[N_DESIGN] = {3, 4, 3, 4, 4, 7, 4, 5, 6};
+  if(id < 0 || id >= N_DESIGN) return 1;
+  *n = nn[id]; *c = cc[id]; return 0;
+}
+static double fsign(int i, int f){ return ((i >> f) & 1) ? -1.0 : 1.0; }
+static int gen_design(job *jb, char *why)
+{
+  vrng r; r.s = (uint64_t)jb->mseed * 0x9E3779B97F4A7C15ULL + 999u;
+  for(int i = 0; i < 4; i++) vr_next(&r);
+  static const double units[7] = {1, 2, 3, 5, 10, 20, 60}, offsv[6] = {0, 1, 7, 40, 70, 1000};
+  int n = jb->n, c = jb->c, lit = (jb->mseed == 0);
+  matrix *x = jb->x;
+  double U = lit ? 1.0 : units[vr_int(&r, 0, 6)];
+  (void)why;
+  for(int i = 0; i < n; i++){
+    double A = fsign(i, 0), B = fsign(i, 1), C = fsign(i, 2), D = fsign(i, 3);
+    switch(jb->gp){
+      case 0: { double u1 = fsign(i, 2), u2 = fsign(i, 1); x->data[i][0] = u2; x->data[i][1] = 0.75 * u1; x->data[i][2] = 0.75 * u1; } break;
+      case 1: x->data[i][0] = A; x->data[i][1] = 0.75 * B; x->data[i][2] = 0.75 * B; x->data[i][3] = 0.5 * C; break;
+      case 2: x->data[i][0] = 10 * A; x->data[i][1] = B; x->data[i][2] = 0.5 * C; break;
+      case 3: { double a = (i & 1) ? -1.0 : 1.0, b = ((i >> 1) & 1) ? -1.0 : 1.0; int l = i / 4; x->data[i][0] = a; x->data[i][1] = b; x->data[i][2] = (double)(l - 1); x->data[i][3] = l == 1 ? -2.0 : 1.0; } break;
+      case 4: x->data[i][0] = 10 * A; x->data[i][1] = B; x->data[i][2] = 0.5 * C; x->data[i][3] = 4 * D; break;
+      case 5: x->data[i][0] = A; x->data[i][1] = B; x->data[i][2] = C; x->data[i][3] = A * B; x->data[i][4] = A * C; x->data[i][5] = B * C; x->data[i][6] = A * B * C; break;
+      case 6: x->data[i][0] = A; x->data[i][1] = B; x->data[i][2] = C; x->data[i][3] = A * B * C; break;
+      case 7: x->data[i][0] = A; x->data[i][1] = B; x->data[i][2] = 0.75 * C; x->data[i][3] = 0.75 * C; x->data[i][4] = 0.5 * D; break;
+      default: x->data[i][0] = A; x->data[i][1] = 0.625 * B; x->data[i][2] = 0.625 * B; x->data[i][3] = 0.625 * B; x->data[i][4] = 0.5 * C; x->data[i][5] = 0.25 * D; break;
+    }
+  }
+  for(int j = 0; j < c; j++){
+    /* designs 2, 4, 5, 6 get a unit of their own per column (physical units), the others a common unit (the relative sums of squares ARE the design) */
+    double u = lit ? 1.0 : ((jb->gp == 2 || jb->gp == 4 || jb->gp == 5 || jb->gp == 6) ? units[vr_int(&r, 0, 6)] : U);
+    double o = lit ? ((jb->gp == 2 || jb->gp == 4) ? (j == 0 ? 70.0 : j == 1 ? 3.0 : j == 2 ? 1.5 : 20.0) : 0.0) : offsv[vr_int(&r, 0, 5)];
+    if(jb->scaling == 5 && o == 0.0) o = 40.0 * u;            /* level scaling divides by the mean */
+    for(int i = 0; i < n; i++) x->data[i][j] = x->data[i][j] * u + o;
+  }
+  return 0;
+}
+
+/* gen "sent": a rank-one matrix k a_i (3, 4) (scaling -1: no centring) whose first score 5 k a_1 equals the missing-value code 99999999 although no
+ * CELL is anywhere near it (59999999.4 and 79999999.2): the kernels that skip "missing" terms then drop a computed quantity */
+static int gen_sent(job *jb, char *why)
+{
+  (void)why;
+  vrng r; r.s = (uint64_t)jb->mseed * 0x9E3779B97F4A7C15ULL + 31u;
+  for(int i = 0; i < 4; i++) vr_next(&r);
+  for(int i = 0; i < jb->n; i++){
+    double a = i == 0 ? 1.0 : (double)vr_int(&r, 1, 40) / 64.0;
+    double t = 99999999.0 * a;
+    for(int j = 0; j < jb->c; j++) jb->x->data[i][j] = t * (j % 2 == 0 ? 0.6 : 0.8) / sqrt((double)((jb->c + 1) / 2) * 0.36 + (double)(jb->c / 2) * 0.64);
+  }
+  return 0;
+}
+
+/* singular values (and, when vt != NULL, the right singular vectors, row k of vt = v_k, ldvt = min(m, n)) of an m x n matrix given as ld array */
+static int svd_ld(const ld *E, int m, int n, double *s, double *vt)
+{
+  int lda = m, ldu = m, mn = m < n ? m : n, ldvt = mn, info = 0, lwork = -1;
+  double *a = malloc(sizeof(double) * m * n), wk, *u = NULL;
+  int *iwork = malloc(sizeof(int) * 8 * (mn > 0 ? mn : 1));
+  for(int i = 0; i < m; i++) for(int j = 0; j < n; j++) a[(size_t)j * m + i] = (double)E[(size_t)i * n + j];
+  char jobz = vt ? 'S' : 'N';
+  if(vt) u = malloc(sizeof(double) * m * mn); else { ldu = 1; ldvt = 1; }
+  dgesdd_(&jobz, &m, &n, a, &lda, s, u, &ldu, vt, &ldvt, &wk, &lwork, iwork, &info);
+  lwork = (int)wk + 64; double *work = malloc(sizeof(double) * lwork);
+  dgesdd_(&jobz, &m, &n, a, &lda, s, u, &ldu, vt, &ldvt, work, &lwork, iwork, &info);
+  free(work); free(iwork); free(a); free(u);
+  return info;
+}
 static int svals(matrix *E, double *s)
 {
-  int m = (int)E->row, n = (int)E->col, lda = m, ldu = 1, ldvt = 1, info = 0, lwork = -1;
-  int mn = m < n ? m : n;
-  double *a = malloc(sizeof(double) * m * n), wk;
-  int *iwork = malloc(sizeof(int) * 8 * (mn > 0 ? mn : 1));
-  for(int i = 0; i < m; i++) for(int j = 0; j < n; j++) a[(size_t)j * m + i] = E->data[i][j];
-  char jobz = 'N';
-  dgesdd_(&jobz, &m, &n, a, &lda, s, NULL, &ldu, NULL, &ldvt, &wk, &lwork, iwork, &info);
-  lwork = (int)wk + 64; double *work = malloc(sizeof(double) * lwork);
-  dgesdd_(&jobz, &m, &n, a, &lda, s, NULL, &ldu, NULL, &ldvt, work, &lwork, iwork, &info);
-  free(work); free(iwork); free(a);
+  int m = (int)E->row, n = (int)E->col;
+  ld *a = malloc(sizeof(ld) * m * n);
+  for(int i = 0; i < m; i++) for(int j = 0; j < n; j++) a[(size_t)i * n + j] = E->data[i][j];
+  int info = svd_ld(a, m, n, s, NULL);
+  free(a);
   return info;
 }
 
 static const char *shape_of(int n, int c){ return n > c ? "tall" : (n < c ? "wide" : "square"); }
+
+/* ---------------------------------------------------------------- preparing one model (parent) */
+static long n_ok = 0, n_drop = 0, n_abort = 0;
+
+static void free_job(job *jb){ if(jb->x) DelMatrix(&jb->x); if(jb->E0) DelMatrix(&jb->E0); jb->x = jb->E0 = NULL; }
+
+/* returns 0 ok, 1 dropped (Reset + Dropped emitted) */
+static int prepare(job *jb)
+{
+  char why[64] = "";
+  jb->x = jb->E0 = NULL;
+  if(jb->gen == G_DESIGN && design_shape(jb->gp, &jb->n, &jb->c)){ fprintf(stderr, "unknown design %d\n", jb->gp); exit(2); }
+  int n = jb->n, c = jb->c, bad;
+  NewMatrix(&jb->x, n, c);
+  switch(jb->gen){
+    case G_RND: bad = gen_matrix(jb->mseed, n, c, jb->scaling, jb->x, why); break;
+    case G_LOC: bad = gen_loc(jb, why); break;
+    case G_MAG: bad = gen_mag(jb, why); break;
+    case G_K5: bad = gen_k5(jb, why); break;
+    case G_DESIGN: bad = gen_design(jb, why); break;
+    case G_DUP: bad = gen_dup(jb, why); break;
+    case G_SENT: bad = gen_sent(jb, why); break;
+    default: fprintf(stderr, "unknown generator %d\n", jb->gen); exit(2);
+  }
+  /* a CELL within 2 of the missing-value code is missing data by the library's convention: outside "finite matrices" as C01 reads it */
+  if(!bad) for(int i = 0; i < n && !bad; i++) for(int j = 0; j < c; j++){ double v = jb->x->data[i][j]; if(!vfinite(v) || fabs(v - 99999999.0) < 2.0 || fabs(v) > 1e12){ bad = 1; sprintf(why, "cell-near-missing-code"); break; } }
+  if(bad){
+    VRT_EMIT("{\"e\":\"Reset\"}");
+    VRT_EMIT("{\"e\":\"Dropped\",\"seed\":%ld,\"n\":%d,\"c\":%d,\"scaling\":%d,\"gen\":\"%s\",\"why\":\"%s\"}", jb->mseed, n, c, jb->scaling, gen_name[jb->gen], why);
+    n_drop++; free_job(jb); return 1;
+  }
+  dvector *avg, *scl;
+  NewMatrix(&jb->E0, n, c); initDVector(&avg); initDVector(&scl);
+  MatrixPreprocess(jb->x, jb->scaling, avg, scl, jb->E0);
+  DelDVector(&avg); DelDVector(&scl);
+  int mn = n < c ? n : c;
+  double *s = calloc(mn + 1, sizeof(double));
+  int info = svals(jb->E0, s);
+  int rank = 0, grey = 0;
+  if(info == 0 && s[0] > 0){
+    for(int i = 0; i < mn; i++){ if(s[i] >= RANK_REL * s[0]) rank++; else if(s[i] > CLEAN_REL * s[0]) grey++; }
+  }
+  if(info != 0 || rank < 1){
+    VRT_EMIT("{\"e\":\"Reset\"}");
+    VRT_EMIT("{\"e\":\"Dropped\",\"seed\":%ld,\"n\":%d,\"c\":%d,\"scaling\":%d,\"gen\":\"%s\",\"why\":\"%s\"}", jb->mseed, n, c, jb->scaling, gen_name[jb->gen], info ? "dgesdd-failed" : "rank-0");
+    n_drop++; free(s); free_job(jb); return 1;
+  }
+  int npc = jb->npc_req > 0 ? jb->npc_req : (jb->npc_frac >= 1.0 ? rank : 1 + (int)(jb->npc_frac * rank));
+  if(npc > rank) npc = rank;          /* never more than the admissible rank: that is C18's territory */
+  if(npc < 1) npc = 1;
+  jb->npc = npc; jb->rank = rank; jb->grey = grey; jb->full = (npc == rank && grey == 0);
+  jb->srel = s[npc - 1] / s[0];
+  jb->ss0 = 0; for(int i = 0; i < n; i++) for(int j = 0; j < c; j++) jb->ss0 += (ld)jb->E0->data[i][j] * jb->E0->data[i][j];
+  /* input classes measured on the matrix itself: decade of max |mean|/sdev (K3), decades of the smallest / largest non-zero column sdev (K4), constant columns */
+  double rmax = 0, lo = 0, hi = 0; int nconst = 0;
+  for(int j = 0; j < c; j++){
+    double m, sd, sc; col_stats(jb->x, j, &m, &sd, &sc, 0);
+    if(col_is_const(jb->x, j)){ nconst++; continue; }
+    if(sd > 0){ if(fabs(m) / sd > rmax) rmax = fabs(m) / sd; if(lo == 0 || sd < lo) lo = sd; if(sd > hi) hi = sd; }
+  }
+  jb->locd = rmax >= 1 ? (int)floor(log10(rmax) + 1e-9) : 0;
+  jb->sdlo = lo > 0 ? (int)floor(log10(lo) + 1e-6) : 0; jb->sdhi = hi > 0 ? (int)floor(log10(hi) + 1e-6) : 0; jb->nconst = nconst;
+  jb->rmode = (int)(jb->mseed % 3);
+  free(s);
+  return 0;
+}
+
+static void emit_fit(job *jb)
+{
+  VRT_EMIT("{\"e\":\"Reset\"}");
+  /* sigma_npc/sigma_1 in 1e-9 units (how well conditioned the requested part is), ss0 as decade */
+  VRT_EMIT("{\"e\":\"Fit\",\"seed\":%ld,\"n\":%d,\"c\":%d,\"scaling\":%d,\"npc\":%d,\"rank\":%d,\"nproc\":%d,\"tail\":%d,\"shape\":\"%s\",\"ss0e\":%d,\"srel\":%ld,"
+           "\"gen\":\"%s\",\"gp\":%d,\"rmode\":%d,\"h\":%d,\"hs\":%ld,\"loc\":%d,\"sdlo\":%d,\"sdhi\":%d,\"nconst\":%d}",
+           jb->mseed, jb->n, jb->c, jb->scaling, jb->npc, jb->rank, jb->nproc, jb->grey, shape_of(jb->n, jb->c), (int)floor(log10((double)jb->ss0)), vqs_unit(jb->srel, 1e-9),
+           gen_name[jb->gen], jb->gp, jb->hpos ? 2 : jb->rmode, jb->hpos, jb->hseed, jb->locd, jb->sdlo, jb->sdhi, jb->nconst);
+}
 
 /* ---------------------------------------------------------------- the fit and its residuals (child process) */
 static long comp_iters[64];
@@ -144,29 +450,62 @@ static void count_iter_cb(const char *site, size_t comp, double a, double b, dou
   vrt_iter_cb(site, comp, a, b, conv);          /* H4 budget: emits Diverge and leaves the child on overrun */
 }
 
-static int child(void *arg)
+/* hand an output object over in the state `rmode` asks for: 0 empty, 1 another shape holding data, 2 the shape the routine will produce, holding data */
+static void stage_output(matrix **o, int rmode, int row, int col)
 {
-  job *jb = (job *)arg;
-  int n = jb->n, c = jb->c, npc = jb->npc;
-  matrix *x = jb->x, *E0 = jb->E0;
-  vrt_force_nproc((size_t)jb->nproc);
-  /* iteration budget (deterministic verdict, unlike the wall-clock watchdog): conforming fits of this sweep need < 2e5 iterations per component */
-  vrt_install_iter_budget(jb->nproc > 1 ? 400000 : 3000000, 0);
-  libsci_verif_iter = count_iter_cb;
+  if(*o == NULL) initMatrix(o);
+  if(rmode == 3) return;                       /* history: whatever the previous fit left there */
+  if(rmode == 0){ DelMatrix(o); initMatrix(o); return; }
+  if(rmode == 1) ResizeMatrix(*o, (size_t)row + 1, (size_t)col + 2); else ResizeMatrix(*o, (size_t)row, (size_t)col);
+  for(size_t i = 0; i < (*o)->row; i++) for(size_t j = 0; j < (*o)->col; j++) (*o)->data[i][j] = 777.0 + (double)i - 3.0 * (double)j;
+}
 
-  PCAMODEL *m; NewPCAModel(&m);
+/* cos^2 between the documented NIPALS start (the column of the deflated matrix with the largest sum of squares) and the dominant eigenspace of the
+ * deflated matrix; lam1 = its dominant eigenvalue.  Columns whose sum of squares ties with the largest one (to 1e-9) are all candidates (rounding decides
+ * between them inside the library): the smallest cos^2 among them is reported */
+static void start_vs_dominant(const ld *E, int n, int c, double *cos2, double *lam1)
+{
+  int mn = n < c ? n : c;
+  double *s = calloc(mn + 1, sizeof(double)), *vt = calloc((size_t)mn * c + 1, sizeof(double));
+  *cos2 = 1.0; *lam1 = 0.0;
+  if(svd_ld(E, n, c, s, vt) != 0 || !(s[0] > 0)){ free(s); free(vt); return; }
+  *lam1 = s[0] * s[0];
+  ld *css = calloc(c, sizeof(ld)), cmax = 0;
+  for(int i = 0; i < n; i++) for(int j = 0; j < c; j++) css[j] += E[(size_t)i * c + j] * E[(size_t)i * c + j];
+  for(int j = 0; j < c; j++) if(css[j] > cmax) cmax = css[j];
+  double best = 1.0;
+  for(int j = 0; j < c; j++){
+    if(!(css[j] >= cmax * (1.0L - 1e-9L)) || !(css[j] > 0)) continue;
+    ld part = 0;
+    for(int k = 0; k < mn; k++){ if(!(s[k] * s[k] >= *lam1 * (1.0 - 1e-9))) break; part += (ld)s[k] * s[k] * (ld)vt[(size_t)j * mn + k] * vt[(size_t)j * mn + k]; }
+    double cs = (double)(part / css[j]);
+    if(cs < best) best = cs;
+  }
+  *cos2 = best < 0 ? 0 : best;
+  free(css); free(s); free(vt);
+}
+
+/* fits jb into the fresh model *m and emits Extract.., Finish, Project, Back; returns 1 when the model has the wrong shape */
+static int fit_and_measure(job *jb, matrix *x, PCAMODEL *m, outputs *o, int rmode)
+{
+  int n = jb->n, c = jb->c, npc = jb->npc;
+  matrix *E0 = jb->E0;
+  memset(comp_iters, 0, sizeof(comp_iters));
   PCA(x, jb->scaling, (size_t)npc, m, NULL);
   if((int)m->scores->col != npc || (int)m->loadings->col != npc || (int)m->scores->row != n || (int)m->loadings->row != c || (int)m->varexp->size != npc){
     VRT_EMIT("{\"e\":\"Abort\",\"rc\":0,\"why\":\"model-shape\"}");
-    return 0;
+    return 1;
   }
-  ld ss0 = 0; for(int i = 0; i < n; i++) for(int j = 0; j < c; j++) ss0 += (ld)E0->data[i][j] * E0->data[i][j];
+  ld ss0 = jb->ss0;
   double nE0 = sqrt((double)ss0);
   /* Erec: deflated by the harness with the model's t, p (successive); Edir: E0 - T_k P_k' summed directly */
   ld *Erec = malloc(sizeof(ld) * n * c), *Edir = malloc(sizeof(ld) * n * c);
   for(int i = 0; i < n; i++) for(int j = 0; j < c; j++) Erec[i * c + j] = E0->data[i][j];
   for(int k = 0; k < npc; k++){
     ld tt = 0; for(int i = 0; i < n; i++) tt += (ld)m->scores->data[i][k] * m->scores->data[i][k];
+    /* where did this component start, and what was the dominant eigenvalue of the matrix it was extracted from */
+    double cos2, lam1; start_vs_dominant(Erec, n, c, &cos2, &lam1);
+    double r = lam1 > 0 ? (double)tt / lam1 : 2.0;
     /* proj: t_k = E_{k-1} p_k, relative to |t_k| */
     ld pe = 0;
     for(int i = 0; i < n; i++){ ld v = 0; for(int j = 0; j < c; j++) v += Erec[i * c + j] * m->loadings->data[j][k]; v -= m->scores->data[i][k]; pe += v * v; }
@@ -191,8 +530,11 @@ static int child(void *arg)
     ld dm = 0;
     for(int i = 0; i < n; i++){ ld rn = 0; for(int j = 0; j < c; j++) rn += Edir[i * c + j] * Edir[i * c + j]; ld d = sqrtl(rn) - m->dmodx->data[i][k]; dm += d * d; }
     double dmodx = sqrt((double)dm) / nE0;
-    VRT_EMIT("{\"e\":\"Extract\",\"k\":%d,\"eval\":%ld,\"resid\":%ld,\"ortho\":%ld,\"proj\":%ld,\"recon\":%ld,\"rorth\":%ld,\"dmodx\":%ld,\"it\":%ld}",
-             k + 1, vqs_unit((double)(tt / ss0), 1e-9), vqs_unit((double)(res / ss0), 1e-9), vq12(ortho), vq12(proj), vq12(recon), vq12(rorth), vq12(dmodx), k < 64 ? comp_iters[k] : 0);
+    /* how many STORED scores of this component coincide with the in-band missing-value code (the library's kernels skip every term within 0.1 of it) */
+    int tm = 0; for(int i = 0; i < n; i++) if(fabs(m->scores->data[i][k] - 99999999.0) < 0.1) tm++;
+    VRT_EMIT("{\"e\":\"Extract\",\"k\":%d,\"eval\":%ld,\"resid\":%ld,\"ortho\":%ld,\"proj\":%ld,\"recon\":%ld,\"rorth\":%ld,\"dmodx\":%ld,\"it\":%ld,\"sc12\":%ld,\"sc9\":%ld,\"r9\":%ld,\"tm\":%d,\"fs\":%ld}",
+             k + 1, vqs_unit((double)(tt / ss0), 1e-9), vqs_unit((double)(res / ss0), 1e-9), vq12(ortho), vq12(proj), vq12(recon), vq12(rorth), vq12(dmodx), k < 64 ? comp_iters[k] : 0,
+             vq12(cos2), vq_unit(cos2, 1e-9), vqs_unit(r > 2.0 ? 2.0 : r, 1e-9), tm, jb->mseed);
   }
   {
     static char buf[4096]; int p = 0;
@@ -201,118 +543,269 @@ static int child(void *arg)
     p += snprintf(buf + p, sizeof(buf) - p, "]}");
     VRT_EMIT("%s", buf);
   }
-  /* projection of the training matrix reproduces the training scores (per component, relative) */
+  /* projection of the training matrix reproduces the training scores (per component, relative): first all components, then fewer INTO THE SAME output */
   {
-    matrix *ps; initMatrix(&ps);
-    PCAScorePredictor(x, m, (size_t)npc, ps);
-    double worst = 0;
-    if((int)ps->row != n || (int)ps->col != npc) worst = 1.0;
-    else for(int k = 0; k < npc; k++){
-      ld d = 0, t2 = 0; for(int i = 0; i < n; i++){ ld e = (ld)ps->data[i][k] - m->scores->data[i][k]; d += e * e; t2 += (ld)m->scores->data[i][k] * m->scores->data[i][k]; }
-      double e = (t2 > 0) ? sqrt((double)(d / t2)) : 1.0; if(!(e <= worst)) worst = e;
+    double worst = 0, part = 0;
+    for(int pass = 0; pass < 2; pass++){
+      int a = pass == 0 ? npc : (npc > 1 ? npc - 1 : 1);
+      if(pass == 0) stage_output(&o->ps, rmode, n, npc);
+      PCAScorePredictor(x, m, (size_t)a, o->ps);
+      double w = 0;
+      if((int)o->ps->row != n || (int)o->ps->col != a) w = 1.0;
+      else for(int k = 0; k < a; k++){
+        ld d = 0, t2 = 0; for(int i = 0; i < n; i++){ ld e = (ld)o->ps->data[i][k] - m->scores->data[i][k]; d += e * e; t2 += (ld)m->scores->data[i][k] * m->scores->data[i][k]; }
+        double e = (t2 > 0) ? sqrt((double)(d / t2)) : 1.0; if(!(e <= w)) w = e;
+      }
+      if(pass == 0) worst = w; else part = w;
     }
-    /* GetResidualMatrix(training matrix, model, a) = preprocessed data - T_a P_a' for a = npc and a = 1, written into an
-       already sized, non-zero output; compared with the harness's own direct residual in units of |E0| */
+    /* GetResidualMatrix(training matrix, model, a) = preprocessed data - T_a P_a' for a = npc and then a = 1 into the SAME output (the second call finds an
+       equally shaped output holding the first residual); compared with the harness's own direct residual in units of |E0| */
     double gr = 0;
     for(int pass = 0; pass < 2; pass++){
       int a = pass == 0 ? npc : 1;
-      matrix *rm; NewMatrix(&rm, 2, 3); for(int i = 0; i < 2; i++) for(int j = 0; j < 3; j++) rm->data[i][j] = 777.0;
-      GetResidualMatrix(x, m, (size_t)a, rm);
-      if((int)rm->row != n || (int)rm->col != c) gr = 1.0;
+      if(pass == 0) stage_output(&o->rm, rmode, n, c);
+      GetResidualMatrix(x, m, (size_t)a, o->rm);
+      if((int)o->rm->row != n || (int)o->rm->col != c) gr = 1.0;
       else{
         ld d2 = 0;
         for(int i = 0; i < n; i++) for(int j = 0; j < c; j++){
           ld v = E0->data[i][j]; for(int q = 0; q < a; q++) v -= (ld)m->scores->data[i][q] * m->loadings->data[j][q];
-          ld e = v - rm->data[i][j]; d2 += e * e;
+          ld e = v - o->rm->data[i][j]; d2 += e * e;
         }
         double e = sqrt((double)(d2 / ss0)); if(!(e <= gr)) gr = e;
       }
-      DelMatrix(&rm);
     }
-    VRT_EMIT("{\"e\":\"Project\",\"err\":%ld,\"gr\":%ld}", vq12(worst), vq12(gr));
-    DelMatrix(&ps);
+    VRT_EMIT("{\"e\":\"Project\",\"err\":%ld,\"part\":%ld,\"gr\":%ld}", vq12(worst), vq12(part), vq12(gr));
   }
-  /* back-transformation: (X - back)/scale = E0 - T P'  (= 0 when all components are taken), in units of |E0| */
+  /* back-transformation: (X - back_a)/scale = E0 - T_a P_a'  (= 0 when all components are taken), in units of |E0|: a = 1, .., then a = npc, all into the
+     SAME output object (scanning the number of components: from the second call on the output has the final shape and holds the previous answer) */
   {
-    matrix *bx; initMatrix(&bx);
-    PCAIndVarPredictor(m->scores, m->loadings, m->colaverage, m->colscaling, (size_t)npc, bx);
-    ld be = 0, rp = 0;            /* rp: how well double precision can represent X relative to its preprocessed content (input property, not model output) */
-    if((int)bx->row != n || (int)bx->col != c) be = ss0;
-    else for(int j = 0; j < c; j++){
-      double sc = (m->colscaling->size > (size_t)j) ? m->colscaling->data[j] : 1.0;
-      int zeroed = (jb->scaling >= 0) && (fabs(sc) < 1e-3);
-      for(int i = 0; i < n; i++){
-        ld lhs = (ld)x->data[i][j] - bx->data[i][j];
-        ld e = zeroed ? (lhs - Edir[i * c + j] * sc) : (lhs / sc - Edir[i * c + j]);
-        be += e * e;
-        ld u = 2.220446049250313e-16L * fabsl((ld)x->data[i][j]) / (zeroed ? 1.0L : fabsl((ld)sc));
-        rp += u * u;
+    ld rp = 0;            /* rp: how well double precision can represent X relative to its preprocessed content (input property, not model output) */
+    double err = 0, scan = 0;
+    int alist[4], na = 0;
+    if(npc > 1) alist[na++] = 1;
+    if(npc > 3) alist[na++] = npc / 2;
+    if(npc > 2) alist[na++] = npc - 1;
+    alist[na++] = npc;
+    stage_output(&o->bx, rmode, n, c);
+    for(int q = 0; q < na; q++){
+      int a = alist[q];
+      PCAIndVarPredictor(m->scores, m->loadings, m->colaverage, m->colscaling, (size_t)a, o->bx);
+      ld be = 0; rp = 0;
+      if((int)o->bx->row != n || (int)o->bx->col != c) be = ss0;
+      else for(int j = 0; j < c; j++){
+        double sc = (m->colscaling->size > (size_t)j) ? m->colscaling->data[j] : 1.0;
+        int zeroed = (jb->scaling >= 0) && (fabs(sc) < 1e-3);
+        for(int i = 0; i < n; i++){
+          ld ea = E0->data[i][j]; for(int w = 0; w < a; w++) ea -= (ld)m->scores->data[i][w] * m->loadings->data[j][w];
+          ld lhs = (ld)x->data[i][j] - o->bx->data[i][j];
+          ld e = zeroed ? (lhs - ea * sc) : (lhs / sc - ea);
+          be += e * e;
+          ld u = 2.220446049250313e-16L * fabsl((ld)x->data[i][j]) / (zeroed ? 1.0L : fabsl((ld)sc));
+          rp += u * u;
+        }
       }
+      double e = sqrt((double)(be / ss0));
+      if(a == npc) err = e; else if(!(e <= scan)) scan = e;
     }
-    VRT_EMIT("{\"e\":\"Back\",\"err\":%ld,\"repr\":%ld}", vq12(sqrt((double)(be / ss0))), vq12(sqrt((double)(rp / ss0))));
-    DelMatrix(&bx);
+    VRT_EMIT("{\"e\":\"Back\",\"err\":%ld,\"repr\":%ld,\"scan\":%ld}", vq12(err), vq12(sqrt((double)(rp / ss0))), vq12(scan));
   }
   free(Erec); free(Edir);
+  return 0;
+}
+
+static int child(void *arg)
+{
+  job *jb = (job *)arg;
+  outputs o = {NULL, NULL, NULL};
+  vrt_force_nproc((size_t)jb->nproc);
+  /* iteration budget (deterministic verdict, unlike the wall-clock watchdog): conforming fits of this sweep need < 2e5 iterations per component */
+  vrt_install_iter_budget(jb->nproc > 1 ? 400000 : 3000000, 0);
+  libsci_verif_iter = count_iter_cb;
+  PCAMODEL *m; NewPCAModel(&m);
+  fit_and_measure(jb, jb->x, m, &o, jb->rmode);
   DelPCAModel(&m);
   return 0;
 }
 
-/* ---------------------------------------------------------------- one model */
-static long n_ok = 0, n_drop = 0, n_abort = 0;
-
-static void run_model(long mseed, int n, int c, int scaling, int npc_req, double npc_frac, int nproc)
+/* PCARSquared(x, model, npc, r2) (outside the statement of C01): r2[a-1] = 1 - |X - back-transformation with a components|^2 / |X - column means|^2,
+ * against the harness's own back-transformation from the model's scores, loadings, means and scales (long double) */
+static int rsq_child(void *arg)
 {
-  char why[64] = "";
-  matrix *x, *E0; dvector *avg, *scl;
-  NewMatrix(&x, n, c);
-  VRT_EMIT("{\"e\":\"Reset\"}");
-  if(gen_matrix(mseed, n, c, scaling, x, why)){
-    VRT_EMIT("{\"e\":\"Dropped\",\"seed\":%ld,\"n\":%d,\"c\":%d,\"scaling\":%d,\"why\":\"%s\"}", mseed, n, c, scaling, why);
-    n_drop++; DelMatrix(&x); return;
+  job *jb = (job *)arg;
+  int n = jb->n, c = jb->c, npc = jb->npc;
+  vrt_force_nproc((size_t)jb->nproc);
+  vrt_install_iter_budget(jb->nproc > 1 ? 400000 : 3000000, 0);
+  PCAMODEL *m; NewPCAModel(&m);
+  PCA(jb->x, jb->scaling, (size_t)npc, m, NULL);
+  dvector *r2; initDVector(&r2);
+  PCARSquared(jb->x, m, (size_t)npc, r2);
+  double err = 0; ld rp = 0, d = 0;
+  for(int i = 0; i < n; i++) for(int j = 0; j < c; j++){ ld v = (ld)jb->x->data[i][j] - (m->colaverage->size > (size_t)j ? (ld)m->colaverage->data[j] : 0.0L); d += v * v; }
+  if((int)r2->size != npc) err = 1.0;
+  else for(int a = 1; a <= npc; a++){
+    ld num = 0;
+    for(int i = 0; i < n; i++) for(int j = 0; j < c; j++){
+      ld v = 0; for(int w = 0; w < a; w++) v += (ld)m->scores->data[i][w] * m->loadings->data[j][w];
+      if(m->colscaling->size > (size_t)j) v *= m->colscaling->data[j];
+      if(m->colaverage->size > (size_t)j) v += m->colaverage->data[j];
+      v -= jb->x->data[i][j]; num += v * v;
+    }
+    double e = fabs((double)(1.0L - num / d) - r2->data[a - 1]);
+    if(!(e <= err)) err = e;
   }
-  NewMatrix(&E0, n, c); initDVector(&avg); initDVector(&scl);
-  MatrixPreprocess(x, scaling, avg, scl, E0);
-  int mn = n < c ? n : c;
-  double *s = calloc(mn + 1, sizeof(double));
-  int info = svals(E0, s);
-  int rank = 0, grey = 0;
-  if(info == 0 && s[0] > 0){
-    for(int i = 0; i < mn; i++){ if(s[i] >= RANK_REL * s[0]) rank++; else if(s[i] > CLEAN_REL * s[0]) grey++; }
-  }
-  if(info != 0 || rank < 1){
-    VRT_EMIT("{\"e\":\"Dropped\",\"seed\":%ld,\"n\":%d,\"c\":%d,\"scaling\":%d,\"why\":\"%s\"}", mseed, n, c, scaling, info ? "dgesdd-failed" : "rank-0");
-    n_drop++; free(s); DelMatrix(&x); DelMatrix(&E0); DelDVector(&avg); DelDVector(&scl); return;
-  }
-  int npc = npc_req > 0 ? npc_req : (npc_frac >= 1.0 ? rank : 1 + (int)(npc_frac * rank));
-  if(npc > rank) npc = rank;          /* never more than the admissible rank: that is C18's territory */
-  if(npc < 1) npc = 1;
-  int full = (npc == rank && grey == 0);
-  ld ss0 = 0; for(int i = 0; i < n; i++) for(int j = 0; j < c; j++) ss0 += (ld)E0->data[i][j] * E0->data[i][j];
-  /* sigma_npc/sigma_1 in 1e-9 units (how well conditioned the requested part is), ss0 as decade */
-  VRT_EMIT("{\"e\":\"Fit\",\"seed\":%ld,\"n\":%d,\"c\":%d,\"scaling\":%d,\"npc\":%d,\"rank\":%d,\"nproc\":%d,\"tail\":%d,\"shape\":\"%s\",\"ss0e\":%d,\"srel\":%ld}",
-           mseed, n, c, scaling, npc, rank, nproc, grey, shape_of(n, c), (int)floor(log10((double)ss0)), vqs_unit(s[npc - 1] / s[0], 1e-9));
-  job jb; jb.mseed = mseed; jb.n = n; jb.c = c; jb.scaling = scaling; jb.npc = npc; jb.nproc = nproc; jb.x = x; jb.E0 = E0; jb.rank = rank; jb.full = full;
-  int rc = vrt_run_child(child, &jb, 900);
+  /* what the location of X costs: the residual X - back is formed from numbers of the size of X */
+  for(int i = 0; i < n; i++) for(int j = 0; j < c; j++){ ld u = 2.220446049250313e-16L * fabsl((ld)jb->x->data[i][j]); rp += u * u; }
+  VRT_EMIT("{\"e\":\"RSq\",\"fs\":%ld,\"err\":%ld,\"repr\":%ld,\"len\":%d,\"npc\":%d,\"scaling\":%d,\"died\":0}", jb->mseed, vq12(err), vq12(sqrt((double)(rp / (d > 0 ? d : 1)))), (int)r2->size, npc, jb->scaling);
+  DelDVector(&r2); DelPCAModel(&m);
+  return 0;
+}
+
+/* ---------------------------------------------------------------- one model in its own process */
+static void run_job(job *jb)
+{
+  jb->hpos = 0;
+  if(prepare(jb)) return;
+  emit_fit(jb);
+  int rc = vrt_run_child(child, jb, 900);
+  fseek(vrt_out, 0, SEEK_END);
   if(rc != 0){
-    fseek(vrt_out, 0, SEEK_END);
     VRT_EMIT("{\"e\":\"Abort\",\"rc\":%d,\"why\":\"%s\"}", rc, rc == 97 ? "iteration-budget" : rc == 124 ? "watchdog" : rc >= 1000 ? "signal" : "exit");
     n_abort++;
   }
-  else { fseek(vrt_out, 0, SEEK_END); n_ok++; }
-  free(s); DelMatrix(&x); DelMatrix(&E0); DelDVector(&avg); DelDVector(&scl);
+  else{
+    n_ok++;
+    if(jb->mseed % 4 == 1 || jb->gen == G_DESIGN){      /* a quarter of the fits: PCARSquared, in a child of its own (it may abort) */
+      int rr = vrt_run_child(rsq_child, jb, 300);
+      fseek(vrt_out, 0, SEEK_END);
+      if(rr != 0) VRT_EMIT("{\"e\":\"RSq\",\"fs\":%ld,\"err\":%ld,\"repr\":0,\"len\":0,\"npc\":%d,\"scaling\":%d,\"died\":%d}", jb->mseed, (long)VQ_MAX, jb->npc, jb->scaling, rr);
+    }
+  }
+  free_job(jb);
 }
 
-int main(int argc, char **argv)
+static void run_model(int gen, int gp, long mseed, int n, int c, int scaling, int npc_req, double npc_frac, int nproc)
 {
-  if(argc < 3){ fprintf(stderr, "usage\n"); return 2; }
-  vrt_open(argv[1]);
-  if(!strcmp(argv[2], "one") && argc >= 9){
-    run_model(atol(argv[3]), atoi(argv[4]), atoi(argv[5]), atoi(argv[6]), atoi(argv[7]), 1.0, atoi(argv[8]));
+  job jb; memset(&jb, 0, sizeof(jb));
+  jb.gen = gen; jb.gp = gp; jb.mseed = mseed; jb.n = n; jb.c = c; jb.scaling = scaling; jb.npc_req = npc_req; jb.npc_frac = npc_frac; jb.nproc = nproc;
+  if(npc_req < 0){ vrng r; r.s = (uint64_t)mseed * 77u + 5; vr_next(&r); jb.npc_req = 0; jb.npc_frac = vr_unif(&r); }
+  run_job(&jb);
+}
+
+/* ---------------------------------------------------------------- an in-process history (K7) */
+#define NHIST 4
+typedef struct { job j[NHIST]; int nj, nproc; } history;
+
+static void copy_into(matrix **w, matrix *src)
+{
+  /* the working matrix keeps its OBJECT (address, row pointers) whenever the shape allows it */
+  if(*w == NULL || (*w)->row != src->row || (*w)->col != src->col){ if(*w) DelMatrix(w); NewMatrix(w, src->row, src->col); }
+  for(size_t i = 0; i < src->row; i++) for(size_t j = 0; j < src->col; j++) (*w)->data[i][j] = src->data[i][j];
+}
+
+static int hist_child(void *arg)
+{
+  history *h = (history *)arg;
+  outputs o = {NULL, NULL, NULL};
+  matrix *xw = NULL;
+  vrt_force_nproc((size_t)h->nproc);
+  vrt_install_iter_budget(h->nproc > 1 ? 400000 : 3000000, 0);
+  libsci_verif_iter = count_iter_cb;
+  for(int q = 0; q < h->nj; q++){
+    job *jb = &h->j[q];
+    emit_fit(jb);
+    copy_into(&xw, jb->x);                 /* same object, same shape, other data (fits 1, 2, 4); another shape (fit 3) */
+    PCAMODEL *m; NewPCAModel(&m);           /* allocated where the previous model was freed */
+    /* the outputs persist: the first fit finds them empty, the later ones find them holding the previous fit's answers (equal shape for fits 2 and 4) */
+    int bad = fit_and_measure(jb, xw, m, &o, q == 0 ? 0 : 3);
+    DelPCAModel(&m);
+    if(bad) return 0;
   }
-  else if(!strcmp(argv[2], "sweep") && argc >= 6){
-    vrng r; r.s = (uint64_t)atol(argv[3]) * 2654435761u + 99;
-    long count = atol(argv[4]); int nproc = atoi(argv[5]);
-    const char *only = argc >= 7 ? argv[6] : "all";
+  return 0;
+}
+
+/* PCA() into a model object that already holds a fit of OTHER data of the same shape, against the fit into a fresh model */
+static int refit_child(void *arg)
+{
+  history *h = (history *)arg;
+  job *ja = &h->j[0], *jb = &h->j[1];
+  vrt_force_nproc((size_t)h->nproc);
+  vrt_install_iter_budget(h->nproc > 1 ? 400000 : 3000000, 0);
+  PCAMODEL *used, *fresh; NewPCAModel(&used); NewPCAModel(&fresh);
+  PCA(jb->x, jb->scaling, (size_t)jb->npc, used, NULL);
+  PCA(ja->x, ja->scaling, (size_t)ja->npc, used, NULL);
+  PCA(ja->x, ja->scaling, (size_t)ja->npc, fresh, NULL);
+  int npc = ja->npc, n = ja->n, c = ja->c;
+  double terr = 0, perr = 0;
+  if((int)used->scores->col != npc || (int)used->scores->row != n || (int)used->loadings->row != c || (int)used->loadings->col != npc) terr = perr = 1.0;
+  else for(int k = 0; k < npc; k++){
+    ld d = 0, t2 = 0, e = 0; for(int i = 0; i < n; i++){ ld v = (ld)used->scores->data[i][k] - fresh->scores->data[i][k]; d += v * v; t2 += (ld)fresh->scores->data[i][k] * fresh->scores->data[i][k]; }
+    for(int j = 0; j < c; j++){ ld v = (ld)used->loadings->data[j][k] - fresh->loadings->data[j][k]; e += v * v; }
+    double a = t2 > 0 ? sqrt((double)(d / t2)) : 1.0, b = sqrt((double)e);
+    if(!(a <= terr)) terr = a; if(!(b <= perr)) perr = b;
+  }
+  VRT_EMIT("{\"e\":\"Refit\",\"fs\":%ld,\"terr\":%ld,\"perr\":%ld,\"vlen\":%d,\"npc\":%d,\"died\":0}", ja->mseed, vq12(terr), vq12(perr), (int)used->varexp->size, npc);
+  DelPCAModel(&used); DelPCAModel(&fresh);
+  return 0;
+}
+
+static void run_history(long hseed, int nproc)
+{
+  static history h; memset(&h, 0, sizeof(h));
+  vrng r; r.s = (uint64_t)hseed * 0x9E3779B97F4A7C15ULL + 2024u;
+  for(int i = 0; i < 4; i++) vr_next(&r);
+  int sh = (int)vr_int(&r, 0, 2), n, c;
+  if(sh == 0){ c = (int)vr_int(&r, 2, 9); n = (int)vr_int(&r, c + 1, 20); } else if(sh == 1){ n = (int)vr_int(&r, 3, 9); c = (int)vr_int(&r, n + 1, 14); } else { n = c = (int)vr_int(&r, 3, 9); }
+  int scaling = (int)vr_int(&r, -1, 5);
+  int n2 = n + (int)vr_int(&r, 1, 4), c2 = c > 2 && vr_int(&r, 0, 1) ? c - 1 : c + (int)vr_int(&r, 1, 3);
+  long sa = (long)(vr_next(&r) & 0x3FFFFFFF), sb = (long)(vr_next(&r) & 0x3FFFFFFF), sc3 = (long)(vr_next(&r) & 0x3FFFFFFF);
+  int full = (int)vr_int(&r, 0, 1);
+  h.nproc = nproc; h.nj = NHIST;
+  for(int q = 0; q < NHIST; q++){
+    job *jb = &h.j[q]; memset(jb, 0, sizeof(*jb));
+    jb->gen = G_RND; jb->gp = 0; jb->nproc = nproc; jb->hpos = q + 1; jb->hseed = hseed;
+    jb->mseed = (q == 0 || q == 3) ? sa : q == 1 ? sb : sc3;
+    jb->n = q == 2 ? n2 : n; jb->c = q == 2 ? c2 : c;
+    jb->scaling = q == 2 ? (int)((scaling + 2) % 7) - 1 : scaling;
+    jb->npc_req = 0; jb->npc_frac = full ? 1.0 : 0.5;
+    int hp = jb->hpos;
+    if(prepare(jb)){ for(int w = 0; w < q; w++) free_job(&h.j[w]); return; }      /* a dropped member drops the history (Reset + Dropped already emitted) */
+    jb->hpos = hp;
+  }
+  int rc = vrt_run_child(hist_child, &h, 900);
+  fseek(vrt_out, 0, SEEK_END);
+  if(rc != 0){
+    VRT_EMIT("{\"e\":\"Abort\",\"rc\":%d,\"why\":\"%s\"}", rc, rc == 97 ? "iteration-budget" : rc == 124 ? "watchdog" : rc >= 1000 ? "signal" : "exit");
+    n_abort++;
+  }
+  else{
+    n_ok += NHIST;
+    /* outside the statement of C01 (the history of the MODEL object): judged by TLC as an extra, in its own child so that it cannot disturb the ledgers */
+    int rr = vrt_run_child(refit_child, &h, 300);
+    fseek(vrt_out, 0, SEEK_END);
+    if(rr != 0) VRT_EMIT("{\"e\":\"Refit\",\"fs\":%ld,\"terr\":%ld,\"perr\":%ld,\"vlen\":0,\"npc\":%d,\"died\":%d}", h.j[0].mseed, (long)VQ_MAX, (long)VQ_MAX, h.j[0].npc, rr);
+  }
+  for(int q = 0; q < NHIST; q++) free_job(&h.j[q]);
+}
+
+/* ---------------------------------------------------------------- command line */
+static int gen_id(const char *s){ for(int g = 0; g < G_NGEN; g++) if(!strcmp(s, gen_name[g])) return g; fprintf(stderr, "unknown generator %s\n", s); exit(2); }
+
+static int dispatch(int argc, char **argv)
+{
+  if(!strcmp(argv[0], "one") && argc >= 7){
+    run_model(G_RND, 0, atol(argv[1]), atoi(argv[2]), atoi(argv[3]), atoi(argv[4]), atoi(argv[5]), 1.0, atoi(argv[6]));
+  }
+  else if(!strcmp(argv[0], "case") && argc >= 9){
+    run_model(gen_id(argv[1]), atoi(argv[2]), atol(argv[3]), atoi(argv[4]), atoi(argv[5]), atoi(argv[6]), atoi(argv[7]), 1.0, atoi(argv[8]));
+  }
+  else if(!strcmp(argv[0], "hist") && argc >= 3){
+    run_history(atol(argv[1]), atoi(argv[2]));
+  }
+  else if(!strcmp(argv[0], "sweep") && argc >= 4){
+    vrng r; r.s = (uint64_t)atol(argv[1]) * 2654435761u + 99;
+    long count = atol(argv[2]); int nproc = atoi(argv[3]);
+    const char *only = argc >= 5 ? argv[4] : "all";
     for(long it = 0; it < count; it++){
       int cls = (int)vr_int(&r, 0, 19), n, c;
       if(!strcmp(only, "small")) { n = (int)vr_int(&r, 2, 12); c = (int)vr_int(&r, 1, 8); }
@@ -323,10 +816,30 @@ int main(int argc, char **argv)
       int fsel = (int)vr_int(&r, 0, 9);
       double frac = fsel < 3 ? 1.0 : vr_unif(&r);
       long mseed = (long)(vr_next(&r) & 0x3FFFFFFF);
-      run_model(mseed, n, c, scaling, 0, frac, nproc);
+      run_model(G_RND, 0, mseed, n, c, scaling, 0, frac, nproc);
     }
   }
-  else { fprintf(stderr, "bad arguments\n"); return 2; }
+  else return 1;
+  return 0;
+}
+
+int main(int argc, char **argv)
+{
+  if(argc < 3){ fprintf(stderr, "usage\n"); return 2; }
+  vrt_open(argv[1]);
+  if(!strcmp(argv[2], "cases") && argc >= 4){
+    FILE *f = fopen(argv[3], "r");
+    if(!f){ perror(argv[3]); return 2; }
+    static char line[512];
+    while(fgets(line, sizeof(line), f)){
+      char *av[16]; int ac = 0;
+      for(char *t = strtok(line, " \t\r\n"); t && ac < 16; t = strtok(NULL, " \t\r\n")) av[ac++] = t;
+      if(ac == 0 || av[0][0] == '#') continue;
+      if(dispatch(ac, av)){ fprintf(stderr, "bad case line: %s ...\n", av[0]); return 2; }
+    }
+    fclose(f);
+  }
+  else if(dispatch(argc - 2, argv + 2)){ fprintf(stderr, "bad arguments\n"); return 2; }
   VRT_EMIT("{\"e\":\"Summary\",\"ok\":%ld,\"dropped\":%ld,\"aborted\":%ld}", n_ok, n_drop, n_abort);
   vrt_close();
   return 0;
